@@ -21,8 +21,6 @@ theorem pp_beq_encBid_none (b : Fin 35) : (encBid b).beq .none = false := by sim
 theorem construct_history (f : Nat) (cv : Val) :
     constructF (mkRec P (f+5)) P n_PlayingHistory [cv]
       = .ok (.obj n_PlayingHistory [(n__history, .tuple []), (n__contract, cv)]) := rfl
-theorem construct_trick (r : Rec) (l cs : Val) :
-    constructF r P n_TrickHistory [l, cs] = .ok (.obj n_TrickHistory [(n_leader, l), (n_cards, cs)]) := rfl
 theorem eval_taken_dict (f : Nat) (env : Env) :
     evalF (mkRec P (f+1)) P env (.dictOf [((.const (.enum n_Pair 1)), (.const (.int 0))), ((.const (.enum n_Pair 2)), (.const (.int 0)))])
       = .ok (.dict (takenKvs 0 0)) := by
